@@ -40,17 +40,34 @@ fn expand_animator(input: AnimatorInput) -> Result<TokenStream2> {
         }
         _ => quote! { #target_type::default() },
     };
-    let mut state_assignments = Vec::new();
-    for state_mapping in &states {
-        let timeline = expand_timeline_or_merge(name, &state_mapping.behavior)?;
-        for state in &state_mapping.states {
-            state_assignments.push(quote! { .on(#state, #timeline) })
-        }
-    }
     let default_values = default_values_ident();
+    let mut shared_timelines = Vec::new();
+    let mut state_assignments = Vec::new();
+    for (index, state_mapping) in states.iter().enumerate() {
+        let timeline = expand_timeline_or_merge(name, &state_mapping.behavior)?;
+        let mut arm_states = state_mapping.states.iter().collect::<Vec<_>>();
+        let Some(last_state) = arm_states.pop() else {
+            continue;
+        };
+        if arm_states.is_empty() {
+            state_assignments.push(quote! { .on(#last_state, #timeline) });
+            continue;
+        }
+        // Several states share one timeline: build it once, so that the expressions in the arm
+        // are evaluated once, and install clones of it.
+        let shared = Ident::new(&format!("shared_timeline_{index}"), Span::mixed_site());
+        shared_timelines.push(quote! {
+            let #shared = ::mina::TimelineOrBuilder::build(#timeline);
+        });
+        for state in arm_states {
+            state_assignments.push(quote! { .on(#state, ::std::clone::Clone::clone(&#shared)) });
+        }
+        state_assignments.push(quote! { .on(#last_state, #shared) });
+    }
     let anim = quote! {
         {
             let #default_values = #default_values_assignment;
+            #(#shared_timelines)*
             ::mina::StateAnimatorBuilder::new()
                 #default_state_assignment
                 .from_values(#default_values.clone())
